@@ -288,14 +288,15 @@ theorem feed_step (r : Repl) (st : SpecSt) (g : GSt) (p : Piece) (inv : Inv r st
     by_cases hres : allResolve st.syms l = true
     · -- accepted by the compiler
       have hres' : allResolve g.syms l = true := by rw [inv.gsyms]; exact hres
-      simp only [pieceGuard, hres', ↓reduceIte, Bool.and_eq_true, List.all_eq_true,
+      simp only [pieceGuard, hres', ↓reduceIte, Bool.and_eq_true,
         Bool.not_eq_eq_eq_not, Bool.not_true] at hg
-      obtain ⟨⟨hall, hdecl⟩, hne⟩ := hg
+      obtain ⟨hdecl, hne⟩ := hg
       have hne' : l ≠ [] := by
         intro h; subst h; simp at hne
       have hc := compileStmts_ok r.comp.syms l (by rw [inv.syms]; exact hres)
-      have hx := exec_codeOf r.vm.old st.syms l hne' [] st.trace 0
-        (fun s hs => by have := hall s hs; rw [inv.old]; exact this)
+      -- reloadCode has forgotten every function an earlier run loaded: no call goes to a stale copy
+      have hx := exec_codeOf (reloadKeeps r.vm.old) st.syms l hne' [] st.trace 0
+        (fun s _ => by simp [reloadKeeps])
       have hdrop : (r.comp.code ++ codeOf l).drop r.vm.ip = codeOf l := by
         rw [inv.ip]; simp
       have hsy := specExec_syms st.syms st.trace 0 l hdecl
@@ -314,10 +315,10 @@ theorem feed_step (r : Repl) (st : SpecSt) (g : GSt) (p : Piece) (inv : Inv r st
           rw [inv.syms, hsy]
         · show (specExec g.syms [] 0 l).syms = _
           rw [inv.gsyms, specExec_syms _ _ _ _ hdecl, hsy]
-        · show (execFrom r.vm.old (codeOf l) [] r.vm.trace).trace = _
+        · show (execFrom (reloadKeeps r.vm.old) (codeOf l) [] r.vm.trace).trace = _
           rw [inv.trace]; exact htr
         · simp
-        · show (execFrom r.vm.old (codeOf l) [] r.vm.trace).stack.length = _
+        · show (execFrom (reloadKeeps r.vm.old) (codeOf l) [] r.vm.trace).stack.length = _
           rw [inv.trace]
           cases hk : (specExec st.syms st.trace 0 l).ok
           · obtain ⟨k, hk1, hk2⟩ := hst2 hk
@@ -800,6 +801,101 @@ theorem bindRun_agree (h : List (List TStmt)) :
       rw [hd2] at e2 h2
       simp only [bindRun, bindSpec]
       exact ⟨by rw [e1, e2], e3, h2⟩
+
+
+/-! ### since the repair of C18-function-globals-snapshot every read goes to the current generation -/
+
+theorem okBody_cur (k : Nat) (body : List (Nat × FExpr)) :
+    ∀ (V : Valid), (∀ g, V g k = true) → ∃ V', okBody k body V = some V' ∧ ∀ g, V' g k = true := by
+  induction body with
+  | nil => intro V hV; exact ⟨V, rfl, hV⟩
+  | cons ge rest ih =>
+    intro V hV
+    obtain ⟨g, e⟩ := ge
+    have hr : e.reads.all (fun x => V x k) = true := List.all_eq_true.2 (fun x _ => hV x)
+    simp only [okBody, hr, ↓reduceIte]
+    apply ih
+    intro g'
+    simp only [Valid.write]
+    by_cases hg : g' = g
+    · simp [hg]
+    · simp [hg, hV g']
+
+/-- an environment in which every function constant is bound to the current generation -/
+def BEnv.allCur (E : BEnv) : Prop := ∀ f, E.bind f = (E.defs f).map fun _ => E.cur
+
+theorem TExpr.ok_cur (E : BEnv) (hE : E.allCur) (e : TExpr) :
+    ∀ (V : Valid), (∀ g, V g E.cur = true) → ∃ V', e.ok E V = some V' ∧ ∀ g, V' g E.cur = true := by
+  induction e with
+  | lit v => intro V hV; exact ⟨V, rfl, hV⟩
+  | glob g => intro V hV; exact ⟨V, by simp [TExpr.ok, hV g], hV⟩
+  | add a b iha ihb =>
+    intro V hV
+    obtain ⟨V1, h1, hV1⟩ := iha V hV
+    obtain ⟨V2, h2, hV2⟩ := ihb V1 hV1
+    exact ⟨V2, by simp [TExpr.ok, h1, h2], hV2⟩
+  | call f a iha =>
+    intro V hV
+    obtain ⟨V1, h1, hV1⟩ := iha V hV
+    have hb := hE f
+    cases hd : E.defs f with
+    | none =>
+      rw [hd] at hb
+      simp only [Option.map_none] at hb
+      exact ⟨V1, by simp [TExpr.ok, h1, hd, hb], hV1⟩
+    | some d =>
+      rw [hd] at hb
+      simp only [Option.map_some] at hb
+      obtain ⟨V2, h2, hV2⟩ := okBody_cur E.cur d.body V1 hV1
+      exact ⟨V2, by simp [TExpr.ok, h1, hd, hb, h2]; exact fun x _ => hV2 x, hV2⟩
+
+theorem TStmt.ok_cur (E : BEnv) (hE : E.allCur) (s : TStmt) (V : Valid) (hV : ∀ g, V g E.cur = true) :
+    ∃ V', s.ok E V = some V' ∧ ∀ g, V' g E.cur = true := by
+  cases s with
+  | set g e =>
+    obtain ⟨V1, h1, hV1⟩ := TExpr.ok_cur E hE e V hV
+    refine ⟨V1.write g E.cur, by simp [TStmt.ok, h1], ?_⟩
+    intro g'
+    simp only [Valid.write]
+    by_cases hg : g' = g
+    · simp [hg]
+    · simp [hg, hV1 g']
+  | defn f d => exact ⟨V, rfl, hV⟩
+  | expr e =>
+    obtain ⟨V1, h1, hV1⟩ := TExpr.ok_cur E hE e V hV
+    exact ⟨V1, by simp [TStmt.ok, h1], hV1⟩
+
+theorem okPiece_cur (E : BEnv) (hE : E.allCur) (l : List TStmt) :
+    ∀ (V : Valid), (∀ g, V g E.cur = true) → ∃ V', okPiece E l V = some V' ∧ ∀ g, V' g E.cur = true := by
+  induction l with
+  | nil => intro V hV; exact ⟨V, rfl, hV⟩
+  | cons s rest ih =>
+    intro V hV
+    obtain ⟨V1, h1, hV1⟩ := TStmt.ok_cur E hE s V hV
+    obtain ⟨V2, h2, hV2⟩ := ih V1 hV1
+    exact ⟨V2, by simp [okPiece, h1, h2], hV2⟩
+
+/-- every run binds every function constant to its own generation … -/
+theorem next_allCur (c : BCtl) (l : List TStmt) : (c.next l).env.allCur := fun _ => rfl
+
+/-- … which starts as a copy of the previous one: valid wherever the previous one was -/
+theorem reloadValid_cur (c : BCtl) (l : List TStmt) (V : Valid) (hV : ∀ g, V g c.cur = true) :
+    ∀ g, reloadValid c V g (c.next l).env.cur = true := by
+  intro g
+  simp only [reloadValid, BCtl.next, BCtl.env]
+  cases hs : c.started with
+  | false => simp [hV g]
+  | true => simp [hV g]
+
+theorem bindGuardFrom_isSome (h : List (List TStmt)) :
+    ∀ (c : BCtl) (V : Valid), (∀ g, V g c.cur = true) → (bindGuardFrom c V h).isSome = true := by
+  induction h with
+  | nil => intro c V _; rfl
+  | cons l rest ih =>
+    intro c V hV
+    obtain ⟨V1, h1, hV1⟩ := okPiece_cur (c.next l).env (next_allCur c l) l (reloadValid c V) (reloadValid_cur c l V hV)
+    simp only [bindGuardFrom, h1]
+    exact ih (c.next l) V1 hV1
 
 
 /-! ## Layer 6: the import cache -/
